@@ -53,12 +53,17 @@ pub enum Ev {
     /// list takes them out again (the old identity is reported as left, with that address).
     #[serde(rename = "ghosts")]
     Ghosts { t: u64, node: u8, ghosts: Vec<(u8, u8)> },
+    /// hours family: a quiet point (no fault active and no operation issued for minutes): every
+    /// running node's store must hold exactly the last-writer-wins documents of the operations
+    /// issued so far
+    #[serde(rename = "checkpoint")]
+    Checkpoint { t: u64 },
 }
 
 impl Ev {
     pub fn t(&self) -> u64 {
         match self {
-            Ev::Op { t, .. } | Ev::Hold { t, .. } | Ev::Release { t, .. } | Ev::Crash { t, .. } | Ev::Restart { t, .. } | Ev::View { t, .. } | Ev::Replay { t, .. } | Ev::ClockJump { t, .. } | Ev::Move { t, .. } | Ev::PartialBulk { t, .. } | Ev::Ghosts { t, .. } => *t,
+            Ev::Op { t, .. } | Ev::Hold { t, .. } | Ev::Release { t, .. } | Ev::Crash { t, .. } | Ev::Restart { t, .. } | Ev::View { t, .. } | Ev::Replay { t, .. } | Ev::ClockJump { t, .. } | Ev::Move { t, .. } | Ev::PartialBulk { t, .. } | Ev::Ghosts { t, .. } | Ev::Checkpoint { t } => *t,
         }
     }
 }
@@ -88,6 +93,12 @@ pub struct Scenario {
     /// and only then started again
     #[serde(default)]
     pub judge_departure: bool,
+    /// hours family (C08's cluster clause): the history spans hours, so the nodes' own hourly
+    /// tombstone purge runs; instead of "within one forgiveness period" the precondition is
+    /// timeliness (every operation reaches every node well within the hour: bounded skew, short
+    /// outages, a running poller)
+    #[serde(default)]
+    pub hours: bool,
 }
 
 pub struct C01;
@@ -113,6 +124,8 @@ pub struct RunResult {
     pub membership_stale: Vec<String>,
     /// probe_direct: live peers a probe write did not reach by direct replication
     pub direct_misses: Vec<String>,
+    /// hours family: where a running node's live documents differed from last-writer-wins at a quiet point
+    pub checkpoint_diffs: Vec<String>,
 }
 
 /// real-membership mode: (node -> ids the membership layer reports, with addresses)
@@ -181,12 +194,16 @@ fn validate(sc: &Scenario) -> Result<(), String> {
     if ids.len() < 1 || ids.len() > 6 || ids.len() != sc.cfg.nodes.len() {
         return Err("bad node set".into());
     }
-    if sc.cfg.nodes.iter().any(|n| n.skew_ms.abs() > 15 * 60_000) {
-        return Err("skew too large for the one-forgiveness-period precondition".into());
-    }
     let last = sc.events.iter().map(|e| e.t()).max().unwrap_or(0);
-    if last > 20 * 60_000 {
-        return Err("history too long for the one-forgiveness-period precondition".into());
+    if sc.hours {
+        validate_timely(sc)?;
+    } else {
+        if sc.cfg.nodes.iter().any(|n| n.skew_ms.abs() > 15 * 60_000) {
+            return Err("skew too large for the one-forgiveness-period precondition".into());
+        }
+        if last > 20 * 60_000 {
+            return Err("history too long for the one-forgiveness-period precondition".into());
+        }
     }
     for e in &sc.events {
         let ok = match e {
@@ -196,6 +213,7 @@ fn validate(sc: &Scenario) -> Result<(), String> {
             Ev::View { node, members, .. } => ids.contains(node) && members.iter().all(|m| ids.contains(m)),
             Ev::Replay { from, .. } => ids.contains(from),
             Ev::Ghosts { node, ghosts, .. } => ids.contains(node) && ghosts.iter().all(|(g, at)| !ids.contains(g) && ids.contains(at) && at != node),
+            Ev::Checkpoint { .. } => sc.hours,
         };
         if !ok {
             return Err("event refers to an unknown node".into());
@@ -205,6 +223,77 @@ fn validate(sc: &Scenario) -> Result<(), String> {
                 return Err("clock jump too large".into());
             }
         }
+    }
+    Ok(())
+}
+
+/// Timeliness precondition of the hours family (C08: "every operation reaches every replica within
+/// less than the forgiveness period of its timestamp, clock skew included"): skews within +-5 min,
+/// clock jumps within +-2 min in total per node, every link hold and every outage of a node at most
+/// 6 min, no stored failure plan beyond a handful of calls, a poller that runs at least every 30 s,
+/// no replayed messages (a re-sent hour-old message is not a timely delivery), and every quiet
+/// point at least 8 min after the last fault ended and the last operation was issued.
+fn validate_timely(sc: &Scenario) -> Result<(), String> {
+    if sc.cfg.real_membership {
+        return Err("hours family runs on harness-made views".into());
+    }
+    if sc.cfg.nodes.iter().any(|n| n.skew_ms.abs() > 5 * 60_000) {
+        return Err("skew too large for the timeliness precondition".into());
+    }
+    if sc.cfg.repair_interval_ms > 30_000 || sc.closing_mode != "background" {
+        return Err("hours family needs the nodes' own poller".into());
+    }
+    if sc.cfg.nodes.iter().any(|n| n.storage_faults.len() + n.storage_read_faults.len() > 4) {
+        return Err("too many storage failures for the timeliness precondition".into());
+    }
+    let mut jumps: BTreeMap<u8, i64> = BTreeMap::new();
+    let mut open: BTreeMap<String, u64> = BTreeMap::new();
+    let mut busy_until = 0u64;
+    let mut evs: Vec<&Ev> = sc.events.iter().collect();
+    evs.sort_by_key(|e| e.t());
+    for e in evs {
+        match e {
+            Ev::ClockJump { node, delta_ms, .. } => {
+                let j = jumps.entry(*node).or_insert(0);
+                *j += delta_ms;
+                if j.abs() > 120_000 {
+                    return Err("clock jumps too large for the timeliness precondition".into());
+                }
+                busy_until = busy_until.max(e.t());
+            },
+            Ev::Hold { t, a, b } => {
+                open.insert(format!("h{}-{}", a.min(b), a.max(b)), *t);
+            },
+            Ev::Release { t, a, b } => {
+                if let Some(t0) = open.remove(&format!("h{}-{}", a.min(b), a.max(b))) {
+                    if t - t0 > 6 * 60_000 {
+                        return Err("link hold too long for the timeliness precondition".into());
+                    }
+                }
+                busy_until = busy_until.max(*t);
+            },
+            Ev::Crash { t, node } => {
+                open.insert(format!("c{node}"), *t);
+            },
+            Ev::Restart { t, node } => {
+                if let Some(t0) = open.remove(&format!("c{node}")) {
+                    if t - t0 > 6 * 60_000 {
+                        return Err("outage too long for the timeliness precondition".into());
+                    }
+                }
+                busy_until = busy_until.max(*t);
+            },
+            Ev::Replay { .. } | Ev::Move { .. } | Ev::Ghosts { .. } => return Err("event kind not used in the hours family".into()),
+            Ev::Checkpoint { t } => {
+                if !open.is_empty() || *t < busy_until + 8 * 60_000 {
+                    return Err("quiet point too close to a fault or an operation".into());
+                }
+            },
+            Ev::Op { t, .. } | Ev::View { t, .. } | Ev::PartialBulk { t, .. } => busy_until = busy_until.max(*t),
+        }
+    }
+    if !open.is_empty() {
+        return Err("a hold or an outage never ends".into());
     }
     Ok(())
 }
@@ -222,6 +311,7 @@ pub fn run_cluster(sc: &Scenario, prop: &str) -> Result<RunResult, String> {
     let real = sc.cfg.real_membership;
     let mut membership_diffs: Vec<String> = Vec::new();
     let mut membership_stale: Vec<String> = Vec::new();
+    let mut checkpoint_diffs: Vec<String> = Vec::new();
     step(&mut cl, BOOT_MS)?;
     if real {
         // the cluster forms by gossip
@@ -315,6 +405,37 @@ pub fn run_cluster(sc: &Scenario, prop: &str) -> Result<RunResult, String> {
                     st.st.lock().arm_partial_bulk = Some(*k);
                 }
                 out.fault("bulk_write_armed_to_fail_partway");
+            },
+            Ev::Checkpoint { .. } => {
+                let sh = cl.shared.borrow();
+                let want = lww(&issued_ops(&sh));
+                let now = cl.elapsed_ms();
+                for n in sh.up.iter() {
+                    let st = sh.stores[n].st.lock();
+                    let mut live: BTreeMap<(String, u64), datacake_crdt::HLCTimestamp> = BTreeMap::new();
+                    for (ks, rows) in &st.rows {
+                        for (id, r) in rows {
+                            if r.data.is_some() {
+                                live.insert((ks.clone(), *id), r.ts);
+                            }
+                        }
+                    }
+                    for ((ks, id), (ts, is_live)) in &want {
+                        match (is_live, live.get(&(ks.clone(), *id))) {
+                            (true, Some(t)) if t == ts => {},
+                            (true, got) => checkpoint_diffs.push(format!("quiet point at {now} ms: node {n} keyspace {ks} id {id}: the newest operation is a put at {} but the node holds {}", fmt_ts(*ts), got.map(|t| format!("a put at {}", fmt_ts(*t))).unwrap_or_else(|| "no live document".into()))),
+                            (false, Some(t)) => checkpoint_diffs.push(format!("quiet point at {now} ms: node {n} keyspace {ks} id {id}: the newest operation is a delete at {} but the node holds a live document at {}", fmt_ts(*ts), fmt_ts(*t))),
+                            (false, None) => {},
+                        }
+                    }
+                    for ((ks, id), t) in &live {
+                        if !want.contains_key(&(ks.clone(), *id)) {
+                            checkpoint_diffs.push(format!("quiet point at {now} ms: node {n} keyspace {ks} id {id}: live at {} but nobody wrote it", fmt_ts(*t)));
+                        }
+                    }
+                }
+                drop(sh);
+                out.probe("quiet_points_judged");
             },
             Ev::Ghosts { node, ghosts, .. } => {
                 cl.shared.borrow_mut().ghosts.insert(*node, ghosts.clone());
@@ -638,6 +759,10 @@ pub fn run_cluster(sc: &Scenario, prop: &str) -> Result<RunResult, String> {
         }
         final_rows.insert(*n, m);
         out.fault_n("storage_call_failed", st.faults_fired);
+        let purged: u64 = st.calls.iter().filter(|c| c.kind == "remove_tombstones" && c.ok).map(|c| c.applied as u64).sum();
+        if purged > 0 {
+            out.probe_n("tombstones_purged_by_the_nodes_own_pass", purged);
+        }
     }
     out.fault_n("replayed_message_rejected_by_rpc", sh.replay_errors);
     for (k, v) in datacake_crdt::verif::take_probes() {
@@ -674,7 +799,7 @@ pub fn run_cluster(sc: &Scenario, prop: &str) -> Result<RunResult, String> {
     let cfg = sc.cfg.clone();
     drop(sh);
     drop(cl);
-    Ok(RunResult { out, ops, issued, final_rows, cfg, views_hist, set_store_diffs, membership_diffs, read_diffs, membership_stale, direct_misses })
+    Ok(RunResult { out, ops, issued, final_rows, cfg, views_hist, set_store_diffs, membership_diffs, read_diffs, membership_stale, direct_misses, checkpoint_diffs })
 }
 
 /// The C01 oracle.
@@ -777,6 +902,7 @@ pub fn gen_cluster_scenario(rng: &mut rand::rngs::SmallRng, k: &GenKnobs) -> Sce
             storage_latency_max_ms: if rng.gen_bool(0.3) { rng.gen_range(1..30) } else { 0 },
             storage_scan_latency_max_ms: 0,
             storage_read_faults: if rng.gen_bool(0.25) { (0..rng.gen_range(1..=4)).map(|_| rng.gen_range(1..25)).collect() } else { vec![] },
+            blunt_removal: false,
         })
         .collect();
     let explicit_only = rng.gen_bool(0.5);
@@ -960,7 +1086,7 @@ pub fn gen_cluster_scenario(rng: &mut rand::rngs::SmallRng, k: &GenKnobs) -> Sce
     }
     events.sort_by_key(|e| e.t());
     let closing_mode = if !explicit_only && rng.gen_bool(0.5) { "background" } else { "explicit" };
-    Scenario { cfg, events, closing_seed: rng.gen(), closing_parallel: rng.gen_bool(0.4), settle_ms: if rng.gen_bool(0.5) { 0 } else { rng.gen_range(0..2_500) }, closing_mode: closing_mode.to_string(), probe_direct: false, judge_departure: false }
+    Scenario { cfg, events, closing_seed: rng.gen(), closing_parallel: rng.gen_bool(0.4), settle_ms: if rng.gen_bool(0.5) { 0 } else { rng.gen_range(0..2_500) }, closing_mode: closing_mode.to_string(), probe_direct: false, judge_departure: false, hours: false }
 }
 
 /// "Burst" family: a node whose direct replication reaches nobody (its view is empty) issues
@@ -970,7 +1096,7 @@ pub fn gen_cluster_scenario(rng: &mut rand::rngs::SmallRng, k: &GenKnobs) -> Sce
 pub fn gen_burst_scenario(rng: &mut rand::rngs::SmallRng) -> Scenario {
     let n = rng.gen_range(2..=3usize);
     let nodes: Vec<NodeCfg> = (1..=n as u8)
-        .map(|id| NodeCfg { id, dc: "dc0".into(), skew_ms: if rng.gen_bool(0.3) { rng.gen_range(-60_000..60_000) } else { 0 }, storage_faults: vec![], storage_latency_max_ms: rng.gen_range(3..40), storage_scan_latency_max_ms: 0, storage_read_faults: if rng.gen_bool(0.4) { (0..rng.gen_range(1..=5)).map(|_| rng.gen_range(1..30)).collect() } else { vec![] } })
+        .map(|id| NodeCfg { id, dc: "dc0".into(), skew_ms: if rng.gen_bool(0.3) { rng.gen_range(-60_000..60_000) } else { 0 }, storage_faults: vec![], storage_latency_max_ms: rng.gen_range(3..40), storage_scan_latency_max_ms: 0, storage_read_faults: if rng.gen_bool(0.4) { (0..rng.gen_range(1..=5)).map(|_| rng.gen_range(1..30)).collect() } else { vec![] }, blunt_removal: false })
         .collect();
     let cfg = ClusterCfg {
         nodes,
@@ -1080,7 +1206,7 @@ pub fn gen_burst_scenario(rng: &mut rand::rngs::SmallRng) -> Scenario {
         }
     }
     events.sort_by_key(|e| e.t());
-    Scenario { cfg, events, closing_seed: rng.gen(), closing_parallel: false, settle_ms: 0, closing_mode: "background".to_string(), probe_direct: false, judge_departure: false }
+    Scenario { cfg, events, closing_seed: rng.gen(), closing_parallel: false, settle_ms: 0, closing_mode: "background".to_string(), probe_direct: false, judge_departure: false, hours: false }
 }
 
 /// "Real membership" family: every node is built with the public API alone
@@ -1101,6 +1227,7 @@ pub fn gen_real_scenario(rng: &mut rand::rngs::SmallRng) -> Scenario {
             storage_latency_max_ms: if rng.gen_bool(0.4) { rng.gen_range(1..40) } else { 0 },
             storage_scan_latency_max_ms: if rng.gen_bool(0.5) { rng.gen_range(5..150) } else { 0 },
             storage_read_faults: if rng.gen_bool(0.25) { (0..rng.gen_range(1..=4)).map(|_| rng.gen_range(1..25)).collect() } else { vec![] },
+            blunt_removal: false,
         })
         .collect();
     let mut jitter_sites = Vec::new();
@@ -1193,13 +1320,13 @@ pub fn gen_real_scenario(rng: &mut rand::rngs::SmallRng) -> Scenario {
         events.push(Ev::ClockJump { t: rng.gen_range(0..span), node: *ids.choose(rng).unwrap(), delta_ms: rng.gen_range(-120_000..120_000) });
     }
     events.sort_by_key(|e| e.t());
-    Scenario { cfg, events, closing_seed: rng.gen(), closing_parallel: false, settle_ms: 0, closing_mode: "background".to_string(), probe_direct: false, judge_departure: stays_down }
+    Scenario { cfg, events, closing_seed: rng.gen(), closing_parallel: false, settle_ms: 0, closing_mode: "background".to_string(), probe_direct: false, judge_departure: stays_down, hours: false }
 }
 
 /// "Big join": one node holds more documents in one keyspace than a single fetch carries
 /// (50 000); the others start empty and repair from it.
 pub fn gen_big_join_scenario(rng: &mut rand::rngs::SmallRng) -> Scenario {
-    let nodes: Vec<NodeCfg> = (1..=2u8).map(|id| NodeCfg { id, dc: "dc0".into(), skew_ms: 0, storage_faults: vec![], storage_latency_max_ms: 0, storage_scan_latency_max_ms: 0, storage_read_faults: vec![] }).collect();
+    let nodes: Vec<NodeCfg> = (1..=2u8).map(|id| NodeCfg { id, dc: "dc0".into(), skew_ms: 0, storage_faults: vec![], storage_latency_max_ms: 0, storage_scan_latency_max_ms: 0, storage_read_faults: vec![], blunt_removal: false }).collect();
     let count = 50_000 + rng.gen_range(1..=40u64);
     let cfg = ClusterCfg {
         nodes,
@@ -1215,7 +1342,156 @@ pub fn gen_big_join_scenario(rng: &mut rand::rngs::SmallRng) -> Scenario {
     };
     // a little traffic so that the case is not empty
     let events = vec![Ev::Op { t: 500, node: 2, spec: OpSpec { kind: "put".to_string(), ks: "small".to_string(), ids: vec![1], level: "None".to_string(), dup: false, empty: false } }];
-    Scenario { cfg, events, closing_seed: rng.gen(), closing_parallel: false, settle_ms: 0, closing_mode: "background".to_string(), probe_direct: false, judge_departure: false }
+    Scenario { cfg, events, closing_seed: rng.gen(), closing_parallel: false, settle_ms: 0, closing_mode: "background".to_string(), probe_direct: false, judge_departure: false, hours: false }
+}
+
+/// "Hours" family (C08's cluster clause on the real store): a cluster that keeps running for two to
+/// four hours, so that every node's own hourly purge pass removes tombstones while writes, deletes,
+/// anti-entropy, short outages and restarts go on. Operations come in bursts of a few minutes with
+/// quiet stretches in between; all deliveries are timely (see `validate_timely`).
+pub fn gen_hours_scenario(rng: &mut rand::rngs::SmallRng) -> Scenario {
+    let n = rng.gen_range(2..=4usize);
+    let dcs = rng.gen_range(1..=2usize);
+    let skewed = rng.gen_bool(0.5);
+    let nodes: Vec<NodeCfg> = (1..=n as u8)
+        .map(|id| NodeCfg {
+            id,
+            dc: format!("dc{}", rng.gen_range(0..dcs)),
+            skew_ms: if skewed { rng.gen_range(-290_000..290_000) } else { 0 },
+            storage_faults: if rng.gen_bool(0.15) { vec![(rng.gen_range(1..40), rng.gen_range(0..3))] } else { vec![] },
+            storage_latency_max_ms: if rng.gen_bool(0.4) { rng.gen_range(50..400) } else { 0 },
+            storage_scan_latency_max_ms: 0,
+            storage_read_faults: vec![],
+            blunt_removal: rng.gen_bool(0.7),
+        })
+        .collect();
+    let tick = *[50u64, 100].choose(rng).unwrap();
+    let cfg = ClusterCfg {
+        nodes,
+        tick_ms: tick,
+        latency_ms: (tick, tick * rng.gen_range(1..=3)),
+        net_seed: rng.gen(),
+        base_ms: rng.gen_range(1_000_000_000u64..60_000_000_000),
+        repair_interval_ms: rng.gen_range(5_000..=10_000),
+        jitter_sites: vec![],
+        hook_seed: rng.gen(),
+        real_membership: false,
+        prefill: None,
+    };
+    let ids: Vec<u8> = cfg.nodes.iter().map(|n| n.id).collect();
+    let kss: Vec<String> = (0..rng.gen_range(1..=2)).map(|i| format!("ks{i}")).collect();
+    // enough ids that some tombstones of one burst are left alone by the next ones
+    let nids = rng.gen_range(4..=14u64);
+    let levels = ["None", "None", "One", "Quorum", "All"];
+    let mut events = Vec::new();
+    let bursts = rng.gen_range(2..=3u64);
+    let mut start = rng.gen_range(0..120_000u64);
+    let mut last_end = 0u64;
+    for b in 0..bursts {
+        // A tombstone is purged once BOTH sources of the set (direct replication and repair) have
+        // seen a stamp of the deleting node that is an hour younger. So every burst has a "dark"
+        // half, in which seeded nodes believe they have no peers (their writes travel by
+        // anti-entropy alone), and a "bright" half with complete views (direct replication).
+        let dark_len = rng.gen_range(15_000..120_000u64);
+        let bright_len = rng.gen_range(15_000..120_000u64);
+        let len = dark_len + 5_000 + bright_len;
+        let dark: Vec<u8> = ids.iter().copied().filter(|_| rng.gen_bool(0.9)).collect();
+        for d in &dark {
+            events.push(Ev::View { t: start, node: *d, members: vec![] });
+            events.push(Ev::View { t: start + dark_len + rng.gen_range(0..4_000), node: *d, members: ids.clone() });
+        }
+        for half in 0..2 {
+            let (h0, hl) = if half == 0 { (start + 50, dark_len - 100) } else { (start + dark_len + 5_000, bright_len) };
+            let nops = rng.gen_range(2..=8);
+            let mut writers: Vec<u8> = ids.clone();
+            writers.shuffle(rng);
+            for i in 0..nops.max(if rng.gen_bool(0.9) { writers.len() } else { 0 }) {
+                // every origin writes in every half, most of the time
+                let node = if i < writers.len() { writers[i] } else { *ids.choose(rng).unwrap() };
+                let kind = if b == 0 && half == 0 { ["put", "put", "put_many", "del"].choose(rng).unwrap() } else { ["put", "put_many", "del", "del", "del_many"].choose(rng).unwrap() };
+                let cnt = if kind.ends_with("many") { rng.gen_range(1..=3) } else { 1 };
+                let mut idv: Vec<u64> = (0..cnt).map(|_| rng.gen_range(0..nids)).collect();
+                idv.sort();
+                idv.dedup();
+                let level = if half == 0 && dark.contains(&node) { "None" } else { *levels.choose(rng).unwrap() };
+                events.push(Ev::Op { t: h0 + rng.gen_range(0..hl), node, spec: OpSpec { kind: kind.to_string(), ks: kss.choose(rng).unwrap().clone(), ids: idv, level: level.to_string(), dup: false, empty: false } });
+            }
+        }
+        // faults inside the burst (or shortly after it): a held link, an outage with a restart
+        let mut fault_end = start + len;
+        if rng.gen_bool(0.5) && n >= 2 {
+            let a = *ids.choose(rng).unwrap();
+            let b2 = *ids.iter().filter(|x| **x != a).collect::<Vec<_>>().choose(rng).unwrap();
+            let t = start + rng.gen_range(0..len);
+            let d = rng.gen_range(500..300_000);
+            events.push(Ev::Hold { t, a, b: *b2 });
+            events.push(Ev::Release { t: t + d, a, b: *b2 });
+            fault_end = fault_end.max(t + d);
+        }
+        if rng.gen_bool(0.3) {
+            let node = *ids.choose(rng).unwrap();
+            // during the burst, or some minutes after it (also: right around the hour, when the purge pass runs)
+            let t = start + len + rng.gen_range(0..600_000);
+            let d = rng.gen_range(200..300_000);
+            events.push(Ev::Crash { t, node });
+            events.push(Ev::Restart { t: t + d, node });
+            let others: Vec<u8> = ids.iter().copied().filter(|x| *x != node).collect();
+            for p in &others {
+                // peers hear of the death after a while (or not before it is back), and of the return promptly
+                if rng.gen_bool(0.7) {
+                    events.push(Ev::View { t: t + rng.gen_range(0..d), node: *p, members: others.clone() });
+                } else {
+                    events.push(Ev::View { t: t + d + 1, node: *p, members: others.clone() });
+                }
+                events.push(Ev::View { t: t + d + rng.gen_range(50..3_000), node: *p, members: ids.clone() });
+            }
+            fault_end = fault_end.max(t + d + 3_000);
+        }
+        if rng.gen_bool(0.25) {
+            let t = start + rng.gen_range(0..len);
+            events.push(Ev::ClockJump { t, node: *ids.choose(rng).unwrap(), delta_ms: rng.gen_range(-50_000..50_000) });
+        }
+        // a quiet point before the next burst
+        let quiet = fault_end + rng.gen_range(8 * 60_000 + 1_000..20 * 60_000);
+        events.push(Ev::Checkpoint { t: quiet });
+        last_end = fault_end;
+        // the next burst starts 61-80 minutes after this one: its stamps make this one's tombstones purgeable
+        start = (start + rng.gen_range(61 * 60_000..80 * 60_000)).max(quiet + 1_000);
+    }
+    // writes that arrive right when a node's hourly purge pass runs (a node that has not been
+    // restarted runs it k hours after its start): ids deleted earlier are written again at the
+    // purging node, or at another node with a level that replicates at once
+    let mut last_busy = last_end.max(start.saturating_sub(61 * 60_000));
+    for k in 1..=3u64 {
+        let at = k * 3_600_000 - (BOOT_MS + 100);
+        if at > last_busy + 50 * 60_000 || !rng.gen_bool(0.6) {
+            continue;
+        }
+        let p = *ids.choose(rng).unwrap();
+        for _ in 0..rng.gen_range(2..=5) {
+            let here = rng.gen_bool(0.7);
+            let node = if here { p } else { *ids.choose(rng).unwrap() };
+            let kind = ["put", "put", "put_many", "del"].choose(rng).unwrap();
+            let cnt = if kind.ends_with("many") { rng.gen_range(1..=3) } else { 1 };
+            let mut idv: Vec<u64> = (0..cnt).map(|_| rng.gen_range(0..nids)).collect();
+            idv.sort();
+            idv.dedup();
+            let t = (at + rng.gen_range(0..2_800)).saturating_sub(300);
+            events.push(Ev::Op { t, node, spec: OpSpec { kind: kind.to_string(), ks: kss.choose(rng).unwrap().clone(), ids: idv, level: if here { "None" } else { "All" }.to_string(), dup: false, empty: false } });
+            last_busy = last_busy.max(t);
+        }
+    }
+    // quiet points keep their distance from everything else (see `validate_timely`)
+    let busy: Vec<u64> = events.iter().filter(|e| !matches!(e, Ev::Checkpoint { .. })).map(|e| e.t()).collect();
+    events.retain(|e| match e {
+        Ev::Checkpoint { t } => !busy.iter().any(|b| *b <= *t && *b + 8 * 60_000 + 500 > *t),
+        _ => true,
+    });
+    // a last quiet stretch of more than an hour: every node's purge pass has run once more after
+    // everything had arrived
+    events.push(Ev::Checkpoint { t: last_busy + rng.gen_range(62 * 60_000..70 * 60_000) });
+    events.sort_by_key(|e| e.t());
+    Scenario { cfg, events, closing_seed: rng.gen(), closing_parallel: false, settle_ms: 0, closing_mode: "background".to_string(), probe_direct: false, judge_departure: false, hours: true }
 }
 
 pub fn cluster_components() -> Vec<(&'static str, &'static str)> {
